@@ -80,6 +80,15 @@ func resourceForwarders(c *an.Ctx, rule string) map[string][]*ssa.Function {
 // forwarding goroutine: context.Context parameters of the enclosing function
 // (captured), or contexts derived from them by WithCancel/WithTimeout.
 func isSubscriptionCtx(v ssa.Value, outer *ssa.Function) bool {
+	return isSubscriptionCtxSeen(v, outer, map[ssa.Value]bool{})
+}
+
+func isSubscriptionCtxSeen(v ssa.Value, outer *ssa.Function, seen map[ssa.Value]bool) bool {
+	if seen[v] {
+		return false
+	}
+	seen[v] = true
+	isSubscriptionCtx := func(v ssa.Value, outer *ssa.Function) bool { return isSubscriptionCtxSeen(v, outer, seen) }
 	for _, s := range an.Sources(v) {
 		switch x := s.(type) {
 		case *ssa.Parameter:
